@@ -25,6 +25,7 @@ type ScenarioInfo struct {
 	NoThoroughComplete bool     `json:"no_thorough_complete"`
 	NoThoroughBounded  bool     `json:"no_thorough_bounded"`
 	ThoroughOnly       bool     `json:"thorough_only"`
+	NoShard            bool     `json:"no_shard,omitempty"`
 }
 
 // ReplayCase is the "case" stored in a replay file of a scheduler check.
@@ -95,7 +96,7 @@ func WorkerMain(scenarios []Scenario) {
 		for i := range scenarios {
 			s := &scenarios[i]
 			info := ScenarioInfo{Name: s.Name, Family: s.Family, Doc: s.Doc, Threads: len(s.Threads), Shared: s.Shared,
-				Bound: s.Bound, ThoroughBound: s.ThoroughBound, Complete: s.Complete, NoThoroughComplete: s.NoThoroughComplete, NoThoroughBounded: s.NoThoroughBounded, ThoroughOnly: s.ThoroughOnly}
+				Bound: s.Bound, ThoroughBound: s.ThoroughBound, Complete: s.Complete, NoThoroughComplete: s.NoThoroughComplete, NoThoroughBounded: s.NoThoroughBounded, ThoroughOnly: s.ThoroughOnly, NoShard: s.NoShard}
 			for j := range s.Threads {
 				info.Labels = append(info.Labels, s.label(j))
 			}
